@@ -257,3 +257,6 @@ var Harnesses = map[string]func(*vrt.Ctx){
 	"TwoRun":     TwoRun,
 	"FlushFirst": FlushFirst,
 }
+
+// Moves: the number of navigation moves recorded in the snapshot.
+func (s Snap) Moves() uint32 { return s.moves }
